@@ -680,6 +680,8 @@ class Output(object):
             self.network = self._address_obj.network
             self.encoding = self._address_obj.encoding
             self.witness_type = self._address_obj.witness_type
+            if self._address_obj.encoding == 'bech32' and self._address_obj.witver:
+                self.witver = self._address_obj.witver
 
         if self.script:
             self.script_type = self.script_type if not self.script.script_types else self.script.script_types[0]
@@ -707,6 +709,8 @@ class Output(object):
             #                            (self._address, address_dict['network'], self.network.name))
             self.public_hash = address_dict['public_key_hash_bytes']
             self.witness_type = address_dict['witness_type']
+            if address_dict['witver']:
+                self.witver = address_dict['witver']
         if not self.encoding:
             self.encoding = 'bech32'
             if self.script_type in ['p2pkh', 'p2sh', 'p2pk'] or self.witness_type == 'legacy':
@@ -719,7 +723,14 @@ class Output(object):
             if self.encoding == 'bech32':
                 self.script_type = 'p2wpkh'
         if not self.script and strict and (self.public_hash or self.public_key):
-            self.script = Script(script_types=[self.script_type], public_hash=self.public_hash, keys=[self.public_key])
+            if self.witver and self.encoding == 'bech32' and self.public_hash:
+                # Witness version 1 to 16: OP_n <witness program> (BIP141), also for future versions and program lengths
+                self.script_type = 'p2tr'
+                self.script = Script([80 + self.witver, self.public_hash], script_types=['p2tr'],
+                                     public_hash=self.public_hash)
+            else:
+                self.script = Script(script_types=[self.script_type], public_hash=self.public_hash,
+                                     keys=[self.public_key])
             self.lock_script = self.script.serialize()
             if not self.script:
                 raise TransactionError("Unknown output script type %s, please provide locking script" %
